@@ -324,7 +324,7 @@ def make_ids(rng, n, scheme=None):
         base = rng.randrange(1, 1000)
         ids = list(range(base, base + n))
     elif scheme == "negative":
-        ids = rng.sample(range(-50, 50), n)
+        ids = rng.sample(range(-50 - n, 50 + n), n)
     elif scheme == "sparse":
         ids = rng.sample(range(0, 100000), n)
     elif scheme == "huge":
@@ -373,9 +373,18 @@ def gen_opt_workload(rng, opts=None):
 
     # components: list of (pose type, n poses, n landmarks)
     total = rng.randint(2, o["max_vertices"])
-    if family == "mixed":
+    r_size = rng.random()
+    if r_size < 0.03:
+        total = rng.randint(20, 70)  # sizes beyond any small-problem threshold (dense fallbacks, chunking, caches)
+        meta["big_graph"] = True
+    elif r_size < 0.08:
+        total = 1  # a single vertex
+        meta["single_vertex"] = True
+    if family == "mixed" and total >= 4:
         a = max(2, total // 2)
         comps = [("SE2", a), ("SE3", max(2, total - a))]
+    elif family == "mixed":
+        comps = [(rng.choice(["SE2", "SE3"]), total)]
     elif "+" in family:
         comps = [(family.split("+")[0], total)]
     else:
@@ -593,6 +602,9 @@ def gen_opt_workload(rng, opts=None):
                 info[i, j] = math.nextafter(info[i, j], math.inf) if info[i, j] != 0 else 1e-17
                 e["information"] = info
                 meta["asym_information"] = True
+    if rng.random() < 0.03:
+        edges = []  # a graph without any edge is still a graph
+        meta["no_edges"] = True
     if rng.random() < 0.3:
         rng.shuffle(edges)
     if o["alias_poses"] and rng.random() < 2 * o["alias_poses"] and len(edges) >= 2:
